@@ -305,3 +305,14 @@ def run(ck, prog):
     bootstrap_no_skip(ck, prog)
     ck.floor("E2h-aggregate", 4)
     ck.floor("E2h-stratified", 1)
+
+
+_run_pre_builders = run
+
+
+def run(ck, prog):
+    _run_pre_builders(ck, prog)
+    # every setting of the quantifier is reachable through the public builder chain: setters must not clobber other fields
+    from sa.builders import check_builders
+    check_builders(ck, prog, r"^ensemble::random_forest_(classifier|regressor)::RandomForest(Classifier|Regressor)Parameters$")
+    ck.floor("E2-builder", 15)
